@@ -57,3 +57,16 @@ def ext_rlock(eng, args, kwargs, st, node):
 EXTERNALS = {'getattr': ext_getattr, 'iterate': ext_opaque_iter, 'opaque.keys': ext_opaque_keys,
              'opaque.__len__': ext_opaque_len, 'isinstance': ext_isinstance}
 
+
+
+def ext_opaque_method(eng, args, kwargs, st, node):
+    """values()/items()/extend()/... of an opaque container: an opaque result, no effect on the objects under verification"""
+    return [(SVal(st.fresh.const('opaque_result', Val)), st)]
+
+
+for _m in ('values', 'items', 'extend', 'append'):
+    EXTERNALS['opaque.' + _m] = ext_opaque_method
+
+
+def bi_list_opaque(eng, args, kwargs, st, node):
+    return [(SVal(st.fresh.const('opaque_list', Val)), st)]
